@@ -89,4 +89,38 @@ Section FailRun.
         rewrite He in E1. destruct (fin_events_split _ _ _ _ _ _ _ E1) as (m0 & H0 & _).
         rewrite H0. exists m0. destruct h; reflexivity.
   Qed.
+
+  (* the events of the cut run are a prefix of the events of the never-failing run *)
+  Lemma run_fail_events : forall h s, ncalls s <= k ->
+    Forall (fun x => snd x = ROk) (fk_run cfgN s h) ->
+    exists rest, all_events (fk_run cfgN s h) = all_events (fk_run cfg s h) ++ rest.
+  Proof.
+    induction h as [|b h IH]; intros s Hk Hok.
+    - exists []. reflexivity.
+    - pose proof (step_fail cfg k Hfail s b) as R.
+      cbn [fk_run] in *. destruct (fk_step cfgN s b) as [[sN evsN] rN].
+      inversion Hok as [|? ? Hr Hok']; subst. cbn [snd] in Hr. subst rN.
+      cbn [step_rel'] in R. destruct R as (_ & evs & Hev & Hn & Hrel). cbn [app] in Hev. subst evs.
+      destruct (Hrel Hk) as [HA HB].
+      destruct (N.le_gt_cases (ncalls s + N.of_nat (length evsN)) k) as [Hle|Hgt].
+      + rewrite (HA Hle). cbv beta iota. destruct (IH sN) as [rest Hrest]; [lia | exact Hok'|].
+        exists rest. unfold all_events in *. cbn [map concat fst]. rewrite Hrest, app_assoc. reflexivity.
+      + destruct (HB Hgt) as (se & e1 & e2 & He & Hl & ->). cbn [app]. cbv beta iota.
+        exists (e2 ++ all_events (fk_run cfgN sN h)). unfold all_events. cbn [map concat fst].
+        rewrite He, app_nil_r, app_assoc. reflexivity.
+  Qed.
 End FailRun.
+
+Lemma all_events_nil t : all_events t = [] -> forall x, In x t -> fst x = [].
+Proof.
+  induction t as [|[evs r] t IH]; intros H x Hx; [destruct Hx|].
+  unfold all_events in H. cbn [map concat fst] in H. apply app_eq_nil in H as [H1 H2].
+  destruct Hx as [<-|Hx]; [exact H1 | apply IH; assumption].
+Qed.
+
+Lemma fin_trace_quiet lib root : forall h t m, (forall x, In x t -> fst x = []) -> fin_trace lib root m h t = Some m.
+Proof.
+  induction h as [|b h IH]; intros t m H; [reflexivity|]. destruct t as [|[evs r] t]; [reflexivity|].
+  pose proof (H (evs, r) (or_introl eq_refl)) as He. cbn [fst] in He. subst evs. cbn [fin_trace fin_events]. apply IH.
+  intros x Hx. apply H. right. exact Hx.
+Qed.
